@@ -819,3 +819,113 @@ Proof.
   - unfold session_kd. cbn [snd]. unfold session_kd in O. cbn [fst] in O. rewrite O. cbn [p_out tl hd_error].
     split; [constructor|]. split; [discriminate|]. intros _. constructor.
 Qed.
+
+(* ---- an unanswered negotiation message never yields a successful Connect ---------------------- *)
+Lemma experienced_unanswered : forall to t, unanswered to t ->
+  experienced to t = (if to then Some NoReply else None).
+Proof.
+  intros to [a r] [H|[H T]]; cbn [fst] in H; subst a; unfold experienced; cbn [fst snd].
+  - reflexivity.
+  - rewrite T. reflexivity.
+Qed.
+
+Lemma switch_not_needed_noreply : forall cmax, switch_needed cmax NoReply = false.
+Proof. intro. unfold switch_needed. cbn [get_supported]. apply andb_false_r. Qed.
+
+(* the query: Connect does not succeed — it fails when the client has a timeout and is still
+   waiting when it has none —, the version is still the configured maximum (nothing was settled),
+   the only negotiation message written is the query, and nothing is written afterwards *)
+Lemma unanswered_query : forall cfg to cmax k1 d1 k2 d2 t1 t2 evs, V1_0_1 < cmax -> unanswered to t1 ->
+  let s := session_t cfg to cmax k1 d1 k2 d2 t1 t2 evs in
+  ~ connect_succeeds s /\ fst s = negb to /\ n_outcome (fst (snd s)) = Fails /\
+  n_version (fst (snd s)) = cmax /\
+  neg_frames_only (n_frames (fst (snd s))) = [mkMsg V1_1 MsgGetSupportedVersion []] /\
+  p_out (snd (snd s)) = [].
+Proof.
+  intros cfg to cmax k1 d1 k2 d2 t1 t2 evs H U. cbv zeta. unfold session_t.
+  rewrite (not_le_1 cmax H), (experienced_unanswered to t1 U).
+  assert (N : negotiate_kd cfg cmax k1 d1 k2 d2 NoReply NoReply
+              = (mkRes (stamp cfg cmax (new_message cfg MsgGetSupportedVersion []) :: acks cfg cmax k1) Fails cmax, [])).
+  { unfold negotiate_kd. rewrite (not_le_1 cmax H). reflexivity. }
+  assert (F : neg_frames_only (stamp cfg cmax (new_message cfg MsgGetSupportedVersion []) :: acks cfg cmax k1)
+              = [mkMsg V1_1 MsgGetSupportedVersion []]).
+  { rewrite neg_only_stamped_neg by reflexivity. rewrite neg_only_acks. reflexivity. }
+  destruct to.
+  - rewrite switch_not_needed_noreply. unfold session_kd.
+    assert (N2 : negotiate_kd cfg cmax k1 d1 k2 d2 NoReply (snd t2)
+              = (mkRes (stamp cfg cmax (new_message cfg MsgGetSupportedVersion []) :: acks cfg cmax k1) Fails cmax, [])).
+    { unfold negotiate_kd. rewrite (not_le_1 cmax H). reflexivity. }
+    rewrite N2. cbn [fst snd n_outcome n_version n_frames p_out negb]. unfold connect_succeeds. cbn [fst snd n_outcome].
+    repeat split; try assumption; try reflexivity. intros [_ A]. discriminate.
+  - rewrite N. cbn [fst snd n_outcome n_version n_frames p_out negb]. unfold connect_succeeds. cbn [fst snd n_outcome].
+    repeat split; try assumption; try reflexivity. intros [A _]. discriminate.
+Qed.
+
+(* the switch: the query was answered in time and calls for SET_PROTOCOL_VERSION, which then gets no
+   answer: Connect does not succeed either, and nothing is written after the negotiation frames *)
+Lemma unanswered_switch : forall cfg to cmax k1 d1 k2 d2 r1 t2 evs, switch_needed cmax r1 = true ->
+  unanswered to t2 ->
+  let s := session_t cfg to cmax k1 d1 k2 d2 (InTime, r1) t2 evs in
+  ~ connect_succeeds s /\ fst s = negb to /\ n_outcome (fst (snd s)) = Fails /\ p_out (snd (snd s)) = [].
+Proof.
+  intros cfg to cmax k1 d1 k2 d2 r1 t2 evs S U. cbv zeta. unfold session_t.
+  assert (C : (cmax <=? V1_0_1) = false).
+  { unfold switch_needed in S. destruct (cmax <=? V1_0_1); [discriminate|reflexivity]. }
+  rewrite C. cbn [experienced fst snd]. rewrite S, (experienced_unanswered to t2 U).
+  assert (N : n_outcome (fst (negotiate_kd cfg cmax k1 d1 k2 d2 r1 NoReply)) = Fails).
+  { unfold switch_needed in S. rewrite C in S. cbn [negb andb] in S. unfold negotiate_kd. rewrite C.
+    destruct (get_supported r1) as [[cur mx]|]; [|discriminate].
+    apply negb_true_iff in S. cbv zeta.
+    destruct (cur =? _) eqn:E; [discriminate S|reflexivity]. }
+  destruct to; unfold connect_succeeds.
+  - unfold session_kd. cbn [fst snd]. rewrite N. cbn [p_out negb].
+    repeat split; try reflexivity; try assumption. intros [_ A]. first [discriminate A | rewrite N in A; discriminate A].
+  - cbn [fst snd p_out negb]. repeat split; try reflexivity; try assumption. intros [A _]. discriminate.
+Qed.
+
+(* for a client without a timeout a slow reply is a reply; replies in time: session_kd *)
+Lemma slow_reply_no_timeout : forall cfg cmax k1 d1 k2 d2 r1 r2 a1 a2 evs, a1 <> Never -> a2 <> Never ->
+  session_t cfg false cmax k1 d1 k2 d2 (a1, r1) (a2, r2) evs
+  = (false, session_kd cfg cmax k1 d1 k2 d2 r1 r2 evs).
+Proof.
+  intros. unfold session_t. destruct (cmax <=? V1_0_1); [reflexivity|].
+  assert (E1 : experienced false (a1, r1) = Some r1) by (destruct a1; [reflexivity|contradiction|reflexivity]).
+  assert (E2 : experienced false (a2, r2) = Some r2) by (destruct a2; [reflexivity|contradiction|reflexivity]).
+  rewrite E1, E2. cbn [snd]. destruct (switch_needed cmax r1); reflexivity.
+Qed.
+
+Lemma in_time_is_session_kd : forall cfg to cmax k1 d1 k2 d2 r1 r2 evs,
+  session_t cfg to cmax k1 d1 k2 d2 (InTime, r1) (InTime, r2) evs
+  = (false, session_kd cfg cmax k1 d1 k2 d2 r1 r2 evs).
+Proof.
+  intros. unfold session_t. destruct (cmax <=? V1_0_1); [reflexivity|].
+  cbn [experienced fst snd]. destruct (switch_needed cmax r1); reflexivity.
+Qed.
+
+(* conversely: whenever Connect succeeds, every negotiation message that was sent got an answer
+   the client could use *)
+Lemma success_means_answered : forall cfg to cmax k1 d1 k2 d2 t1 t2 evs, V1_0_1 < cmax ->
+  connect_succeeds (session_t cfg to cmax k1 d1 k2 d2 t1 t2 evs) ->
+  exists r1, experienced to t1 = Some r1 /\ r1 <> NoReply /\
+             (switch_needed cmax r1 = true -> exists r2, experienced to t2 = Some r2 /\ r2 <> NoReply).
+Proof.
+  intros cfg to cmax k1 d1 k2 d2 t1 t2 evs H [W P]. unfold session_t in *.
+  rewrite (not_le_1 cmax H) in *.
+  destruct (experienced to t1) as [r1|] eqn:E1; [|discriminate].
+  exists r1. split; [reflexivity|].
+  destruct (switch_needed cmax r1) eqn:S.
+  - destruct (experienced to t2) as [r2|] eqn:E2; [|discriminate].
+    split.
+    + intros ->. rewrite switch_not_needed_noreply in S. discriminate.
+    + intros _. exists r2. split; [reflexivity|]. intros ->.
+      cbn [fst snd] in P. unfold session_kd in P. cbn [fst] in P.
+      unfold switch_needed in S. rewrite (not_le_1 cmax H) in S. cbn [negb andb] in S.
+      unfold negotiate_kd in P. rewrite (not_le_1 cmax H) in P.
+      destruct (get_supported r1) as [[cur mx]|]; [|discriminate].
+      apply negb_true_iff in S. cbv zeta in P.
+      destruct (cur =? _) eqn:E; [discriminate S|].
+      cbn [set_accepted fst n_outcome] in P. discriminate.
+  - split; [|discriminate]. intros ->.
+    cbn [fst snd] in P. unfold session_kd in P. cbn [fst] in P.
+    unfold negotiate_kd in P. rewrite (not_le_1 cmax H) in P. cbn [get_supported fst n_outcome] in P. discriminate.
+Qed.
